@@ -593,6 +593,7 @@ run_line (char *line)
 	else if ((!strcmp (tok [0], "getmeta") || !strcmp (tok [0], "setcues")) && ntok >= 2) op_meta (tok, ntok) ;
 	else if (!strcmp (tok [0], "cseek")) op_cseek (tok, ntok) ;
 	else if (!strcmp (tok [0], "byterate") || !strcmp (tok [0], "fdpos")) op_query (tok, ntok) ;
+	else if (!strcmp (tok [0], "perror") || !strcmp (tok [0], "errstr") || !strcmp (tok [0], "wsync")) op_errapi (tok, ntok) ;
 	else if (!strcmp (tok [0], "iostat")) printf ("calls=%ld fired=%ld\n", fault.calls, fault.fired) ;
 	else if (!strcmp (tok [0], "store") && ntok >= 2)
 	{	STORE *s = store_get (tok [1]) ; size_t len ; unsigned char *d = unhex (ntok > 2 ? tok [2] : "", &len) ;
